@@ -1,13 +1,28 @@
 #!/bin/bash
-# Offline build of the framework from files on disk only.
+# Offline build of the framework from files on disk only (run once after a fresh restore).
 set -e
 cd "$(dirname "$0")"
 export GOFLAGS=-mod=mod GOPROXY=off GOSUMDB=off GOTOOLCHAIN=local CGO_ENABLED=0
-mkdir -p out/bin out/replay evidence
-(cd tools/factgen && go build -o ../../out/bin/factgen .)
-mkdir -p lean/Galaxy/Generated
-./out/bin/factgen -repo "${GALAXY_REPO:-/repo}" -out lean/Galaxy/Generated
-(cd lean && lake build)
-cp "${GALAXY_REPO:-/repo}/go.sum" harness/go.sum
-(cd harness && go build -tags verif -o ../out/bin/gxharness ./cmd/gxharness)
+REPO="${GALAXY_REPO:-/repo}"
+mkdir -p out/bin out/replay evidence lean/Galaxy/Generated
+# 1. translators: regenerate lean/Galaxy/Generated from the source tree
+for d in tools/factgen/cmd/*/; do
+  [ -d "$d" ] || continue
+  a=$(basename "$d")
+  (cd tools/factgen && go build -o ../../out/bin/factgen_$a ./cmd/$a)
+  ./out/bin/factgen_$a -repo "$REPO" -out lean/Galaxy/Generated
+done
+# 2. Lean: library (models, lemmas, theorems) and every model driver whose root module exists
+exes=""
+for e in $(grep -o 'name = "gxdrv_[a-z]*"' lean/lakefile.toml | sed 's/name = "\(.*\)"/\1/'); do
+  root=$(grep -A1 "name = \"$e\"" lean/lakefile.toml | grep root | sed 's/.*"\(.*\)"/\1/')
+  [ -f "lean/$(echo "$root" | tr . /).lean" ] && exes="$exes $e"
+done
+(cd lean && lake build Galaxy $exes)
+# 3. Go harness commands (hooks on: -tags verif), built against the source tree
+cp "$REPO/go.sum" harness/go.sum
+for d in harness/cmd/*/; do
+  a=$(basename "$d")
+  (cd harness && go build -tags verif -o ../out/bin/gxh_$a ./cmd/$a)
+done
 echo setup done
